@@ -103,29 +103,42 @@ def _vc(vc, i):
     return sym_true_idx(vc, i)
 
 
-@h(bounds="18 column types/configurations; documents 0..5 supply a value by a symbolic 6-bit mask, values from per-type tables (empty, 300-byte, 0x00/0xff, "
-          "range limits, floats incl. -0.0 and inf, non-BMP strings, Decimals, lists) by symbolic codes (two independent codes: even/odd documents), document "
-          "count 6..8, VarBytes offsets cut-off in {0, 2, 5, 400}; reader[d] and iteration = supplied value or the column default, at a non-zero base position",
-   funcs=["whoosh.columns.VarBytesColumn", "whoosh.columns.FixedBytesColumn", "whoosh.columns.RefBytesColumn", "whoosh.columns.NumericColumn",
-          "whoosh.columns.BitColumn", "whoosh.columns.CompressedBytesColumn", "whoosh.columns.CompressedBlockColumn", "whoosh.columns.PickleColumn",
-          "whoosh.columns.VarBytesListColumn", "whoosh.columns.FixedBytesListColumn", "whoosh.columns.StructColumn"],
-   examples=[dict(c=0, mask=21, v1=1, v2=4, dc=7, co=1), dict(c=5, mask=63, v1=0, v2=2, dc=6, co=0)], timeout=dict(quick=900, thorough=3000),
-   outside="more than 8 documents per column (except the RefBytes switch harness), offsets beyond 2^16, zlib/pickle themselves")
-def c08_columns(c: int, mask: int, v1: int, v2: int, dc: int, co: int) -> Optional[str]:
-    """
-    pre: 0 <= c < NC and 0 <= mask < 64 and 0 <= v1 < NVC and 0 <= v2 < NVC and 6 <= dc <= 8 and 0 <= co < 4
-    post: _ is None
-    """
-    with notrace():
-        ci = pick(c, NC)
-        m = pick(mask, 64)
-        a, b = pick(v1, NVC), pick(v2, NVC)
-        r = roundtrip(ci, m, [a, b, a + 1, b + 2, a + 3, b + 1], pick(dc - 6, 3) + 6, [0, 2, 5, 400][pick(co, 4)] if ci == 1 else 0)
-    tick(m != 0)
-    return r
+def _mk_col(ci):
+    cname = "c08_col_" + "".join(ch if ch.isalnum() else "_" for ch in COLS[ci][0]).strip("_").lower()
+    while "__" in cname:
+        cname = cname.replace("__", "_")
+
+    @h(bounds="column %s: documents 0..5 supply a value by a symbolic 6-bit mask, values from the type's table (empty, 300-byte, 0x00/0xff, range limits, "
+              "floats incl. -0.0 and inf, non-BMP strings, Decimals, lists) by two symbolic codes (even/odd documents), document count 6..8%s; reader[d] and "
+              "iteration = supplied value or the column default, at a non-zero base position" % (COLS[ci][0], ", offsets cut-off in {0, 2, 5, 400}" if ci == 1 else ""),
+       funcs=["whoosh.columns.VarBytesColumn", "whoosh.columns.FixedBytesColumn", "whoosh.columns.RefBytesColumn", "whoosh.columns.NumericColumn",
+              "whoosh.columns.BitColumn", "whoosh.columns.CompressedBytesColumn", "whoosh.columns.CompressedBlockColumn", "whoosh.columns.PickleColumn",
+              "whoosh.columns.VarBytesListColumn", "whoosh.columns.FixedBytesListColumn", "whoosh.columns.StructColumn"],
+       examples=[dict(mask=21, v1=1, v2=3, dc=7, co=1), dict(mask=63, v1=0, v2=2, dc=6, co=0)], timeout=dict(quick=900, thorough=3000),
+       outside="more than 8 documents per column (except the RefBytes switch harness), offsets beyond 2^16, zlib/pickle themselves")
+    def harness(mask: int, v1: int, v2: int, dc: int, co: int) -> Optional[str]:
+        """
+        pre: 0 <= mask < 64 and 0 <= v1 < NVC and 0 <= v2 < NVC and 6 <= dc <= 8 and 0 <= co < NCO
+        post: _ is None
+        """
+        dc0 = dc - 6            # (arithmetic on symbolic values only while tracing)
+        with notrace():
+            m = pick(mask, 64)
+            a, b = pick(v1, NVC), pick(v2, NVC)
+            cov = pick(co, NCO)
+            r = roundtrip(ci, m, [a, b, a + 1, b + 2, a + 3, b + 1], pick(dc0, 3) + 6, [0, 2, 5, 400][cov] if ci == 1 else 0)
+        tick(m != 0)
+        return r
+    NCO = 4 if ci == 1 else 1
+    harness.__name__ = harness.__qualname__ = cname
+    return cname, harness
 
 
 NVC = tiered(4, 7)
+for _ci in range(NC):
+    _n, _f = _mk_col(_ci)
+    globals()[_n] = _f
+
 
 
 def refswitch(nuniq, gap_at, trailing):
@@ -166,8 +179,9 @@ def c08_refswitch(n: int, g: int, t: int) -> Optional[str]:
     pre: 250 <= n <= 262 and 0 <= g < 8 and 0 <= t <= 2
     post: _ is None
     """
+    n0 = n - 250
     with notrace():
-        nn = pick(n - 250, 13) + 250
+        nn = pick(n0, 13) + 250
         gaps = [0, 100, 254, 255, 256, 257, 259, 10 ** 6]
         r = refswitch(nn, gaps[pick(g, 8)], pick(t, 3))
     tick(True)
